@@ -189,7 +189,7 @@ Definition c14_signal_out (s : signal) : val :=
       VL (map c14_desc_out (sg_descs s))].
 Definition c14_run (v : val) : val :=
   let mode := vint (vnth 0 v) in
-  if mode =? 0 then c14_pairs (emsg (c14_sched (vnth 1 v)) (vint (vnth 2 v)) (vint (vnth 3 v)))
+  if mode =? 0 then c14_pairs (map (fun p => (emsg_id_field (fst p), snd p)) (emsg (c14_sched (vnth 1 v)) (vint (vnth 2 v)) (vint (vnth 3 v))))
   else if mode =? 1 then c14_pairs (manifest_events (c14_sched (vnth 1 v)))
   else if mode =? 2 then of_ints (bits_bytes (enc_signal (c14_signal (vnth 1 v))))
   else if mode =? 3 then
@@ -203,6 +203,9 @@ Definition c14_run (v : val) : val :=
     VL [VI (scte35_pts (c14_sched (vnth 1 v)) (vint (vnth 2 v))); VI (scte35_break (c14_sched (vnth 1 v)))]
   else if mode =? 6 then
     of_ints (bits_bytes (enc_signal (event_signal (c14_sched (vnth 1 v)) (vint (vnth 2 v)) (vint (vnth 3 v)) (vint (vnth 4 v)))))
+  else if mode =? 7 then
+    (* (7 sched scte35? program_id) -> does check_parameters accept the schedule? *)
+    vbool (if 0 <? vint (vnth 2 v) then scte35_params_ok (c14_sched (vnth 1 v)) (vint (vnth 3 v)) else params_ok (c14_sched (vnth 1 v)))
   else verr 997.
 
 (* ---- C12 ---- request: (mode ...) *)
